@@ -146,6 +146,37 @@ func c16Exec(w *rnsWorld, s c16Step) c16Out {
 	return out
 }
 
+// c16Init sends the free MsgInit of a not yet initialised account: it registers a generated name for the
+// sender, and like every registration it must leave live names of other accounts alone.
+func c16Init(w *rnsWorld, acc chain.Account) c16Out {
+	h := w.f.Height()
+	before := w.names()
+	res := w.f.Exec(&rnstypes.MsgInit{Creator: acc.Bech})
+	after := w.names()
+	w.logf("init by %s -> %s", short(acc.Bech), res)
+	for _, key := range sortedNameKeys(before) {
+		b := before[key]
+		if h < b.Expires && b.Value != acc.Bech && after[key] != b {
+			return c16Out{sig: "C16/live-name-registered-by-non-owner", msg: fmt.Sprintf("%s (live until %d, owner %s) was taken or rewritten by the free initial registration of %s at height %d: now held by %s until %d", key, b.Expires, short(b.Value), short(acc.Bech), h, short(after[key].Value), after[key].Expires)}
+		}
+	}
+	if res.OK() {
+		got := 0
+		for key, a := range after {
+			if a.Value == acc.Bech && before[key] != a {
+				got++
+				if a.Expires <= h {
+					return c16Out{sig: "C16/init-name-not-live", msg: fmt.Sprintf("the initial name %s expires at %d, height is %d", key, a.Expires, h)}
+				}
+			}
+		}
+		if got != 1 {
+			return c16Out{sig: "C16/init-does-not-resolve", msg: fmt.Sprintf("a successful initial registration left %d new names held by the sender", got)}
+		}
+	}
+	return c16Out{ok: res.OK()}
+}
+
 func genC16Name(rt *rapid.T) string {
 	n := rapid.IntRange(1, 8).Draw(rt, "len")
 	name := rapid.StringMatching(fmt.Sprintf(`[A-Za-z0-9_-]{%d}`, n)).Draw(rt, "name")
@@ -177,7 +208,7 @@ func genC16Years(rt *rapid.T, name string) int64 {
 
 func TestC16(t *testing.T) {
 	rec := ev.For("C16")
-	rec.Describe("fork-mode histories of 1-6 RegisterName messages: names of 1-8 chars over [A-Za-z0-9_-] (mostly from a small alphabet so steps collide), both TLDs, year counts from {1,2,3,5,100} and arithmetic boundary values (0, negative, around MaxInt64/price, values making price*years wrap), registrants with balances around the price, heights before / at / long after the previous expiry, re-registration by the same or another account. Oracle: exact big.Int price to POL, name resolves, expiry >= height + Y*5484530 (renewal of a live name: exactly old + Y*5484530), live names refused to non-owners. Non-trivial = a re-registration at a height past the previous expiry or a renewal of a live name; distinct = distinct traces.",
+	rec.Describe("fork-mode histories of 1-6 RegisterName messages: names of 1-8 chars over [A-Za-z0-9_-] (mostly from a small alphabet so steps collide), both TLDs, year counts from {1,2,3,5,100} and arithmetic boundary values (0, negative, around MaxInt64/price, values making price*years wrap), registrants with balances around the price, heights before / at / long after the previous expiry, re-registration by the same or another account; interleaved with free initial registrations (MsgInit, several per block) at heights whose generated candidate names are partly held by paying registrants. Oracle: exact big.Int price to POL, name resolves, expiry >= height + Y*5484530 (renewal of a live name: exactly old + Y*5484530), live names refused to non-owners. Non-trivial = a re-registration at a height past the previous expiry or a renewal of a live name; distinct = distinct traces.",
 		"price table (10/50 JKL base, x24/x12/x6/x3 for 1-4 characters) is copied into the oracle as 'the listed price'",
 		"height == previous Expires is accepted under either reading")
 	c := chain.New(chain.GenesisOpts{NumAccounts: 3, Balance: sdk.NewCoins(sdk.NewInt64Coin("ujkl", 1_000_000_000_000)),
@@ -207,7 +238,31 @@ func TestC16(t *testing.T) {
 		n := rapid.IntRange(1, 6).Draw(rt, "steps")
 		nt := false
 		var lastName string
+		fresh := 10 // accounts 10.. have not sent MsgInit yet
 		for i := 0; i < n; i++ {
+			if rapid.IntRange(0, 4).Draw(rt, "initScenario") == 0 {
+				// free initial registrations (generated names that depend on the height only), some of the candidate
+				// names being held by paying registrants already, several initialisations in the same block
+				h := w.f.Height()
+				for k := 0; k < 4; k++ {
+					if rapid.Bool().Draw(rt, fmt.Sprintf("candidateTaken%d", k)) {
+						if o := c16Exec(w, c16Step{Acc: rapid.IntRange(0, 2).Draw(rt, "victim"), Name: rnstypes.MakeName(int(h)+k, h) + ".jkl", Years: 1, Height: h}); o.sig != "" {
+							failf(rt, rec, o.sig, w.trace, "%s", o.msg)
+						}
+					}
+				}
+				for k, m := 0, rapid.IntRange(1, 3).Draw(rt, "inits"); k < m; k++ {
+					if o := c16Init(w, chain.Acc(fresh)); o.sig != "" {
+						failf(rt, rec, o.sig, w.trace, "%s", o.msg)
+					} else if o.ok {
+						rec.Count("ok:init")
+					} else {
+						rec.Count("rejected:init")
+					}
+					fresh++
+				}
+				continue
+			}
 			var s c16Step
 			s.Acc = rapid.IntRange(0, 2).Draw(rt, "acc")
 			if lastName != "" && rapid.IntRange(0, 9).Draw(rt, "sameName") < 7 {
